@@ -41,7 +41,7 @@ func (e *Engine) VerifyFunc(key string) (ctx *FnCtx) {
 			}
 		}
 	}()
-	st := &State{pcSet: map[string]bool{}, heap: map[string]Term{}, cells: map[int]Val{}, knownTags: map[string]int{}}
+	st := &State{pcSet: map[string]bool{}, heap: map[string]Term{}, cells: map[int]Val{}, knownTags: map[string]int{}, lastCrash: map[string]string{}}
 	st.W = ctx.declare("W@0", SInt)
 	st.assume(Ge(st.W, Zero))
 	if len(fn.FreeVars) > 0 {
